@@ -38,6 +38,8 @@ def nameBody : Cps → Bool
   | c :: d :: u => if c == 92 then escOk d && nameBody u else inRanges identRestR c && nameBody (d :: u)
 /-- what may follow a name: ASCII code points that are no name code points, no backslash and no `(` -/
 def nameStopR : List (Nat × Nat) := [(0, 39), (41, 44), (46, 47), (58, 64), (91, 91), (93, 94), (96, 96), (123, 127)]
+/-- what may follow a lone `-`: no `-`, `.`, digit, letter, `_`, backslash, non-ASCII -/
+def minusStopR : List (Nat × Nat) := [(0, 44), (47, 47), (58, 64), (91, 91), (93, 94), (96, 96), (123, 127)]
 /-- white space of the `S` production -/
 def wsR : List (Nat × Nat) := [(9, 9), (13, 13), (10, 10), (12, 12), (32, 32)]
 def digitR : List (Nat × Nat) := [(48, 57)]
@@ -72,8 +74,9 @@ def cmTail (s : Cps) : Bool :=
     cmSegs (s.length + 1) ((s.dropWhile (· != 42)).dropWhile (· == 42))
 
 /-- the single-character tokens of the selector grammar: `, : > [ ]` (fast path of the tokenizer), `= )`,
-`* | ~` (unless `=` follows), `.` (unless a digit follows), `+` (unless a digit or `.` follows) -/
-def plainChars : List Nat := [44, 58, 62, 91, 93, 61, 41, 42, 124, 126, 46, 43]
+`* | ~` (unless `=` follows), `.` (unless a digit follows), `+` (unless a digit or `.` follows), `-` (followed by
+nothing that continues a name, a number or `-->`) -/
+def plainChars : List Nat := [44, 58, 62, 91, 93, 61, 41, 42, 124, 126, 46, 43, 45]
 
 /-- the name the tokenizer gives to a token type -/
 def typeStr : TT → String
@@ -112,7 +115,9 @@ def Tok.plainCls (t : Tok) : Bool :=
   | .comment => (match t.val with
       | 47 :: 42 :: r => cmTail r
       | _ => false)
-  | .number => !t.val.isEmpty && t.val.all (inRanges digitR)
+  | .number => (match t.val with
+      | c :: r => if c == 43 || c == 45 then !r.isEmpty && r.all (inRanges digitR) else (c :: r).all (inRanges digitR)
+      | [] => false)
   | .dimension => !(t.val.takeWhile (inRanges digitR)).isEmpty && plainName (t.val.dropWhile (inRanges digitR))
   | _ => false
 
@@ -130,6 +135,7 @@ def Tok.follow (t : Tok) (c : Nat) : Bool :=
       | [126] => c != 61
       | [46] => !inRanges digitR c
       | [43] => !inRanges digitR c && c != 46
+      | [45] => inRanges minusStopR c
       | _ => true)
   | .number => inRanges numStopR c
   | .dimension => inRanges nameStopR c
